@@ -64,8 +64,10 @@ def relaxB (D : DistArr) (u v w : Nat) : DistArr :=
 def relaxNodeB (g : Adj) (D : DistArr) (u : Nat) : DistArr :=
   (g u).foldl (fun D e => relaxB D u e.1 e.2) D
 
+/-- one round: all nodes in ascending, then in descending order (long chains in either id
+direction converge in one round; soundness does not depend on the order) -/
 def roundB (g : Adj) (n : Nat) (D : DistArr) : DistArr :=
-  (List.range n).foldl (relaxNodeB g) D
+  (List.range n ++ (List.range n).reverse).foldl (relaxNodeB g) D
 
 /-- at most `k` rounds, stopping at the first round that changes nothing -/
 def iterB (g : Adj) (n : Nat) : Nat → DistArr → DistArr
@@ -130,7 +132,7 @@ theorem relaxNodeB_sound {g : Adj} {s : Nat} (u : Nat) (D : DistArr) (h : SoundD
 
 theorem roundB_sound {g : Adj} {s : Nat} (n : Nat) (D : DistArr) (h : SoundD g s D) : SoundD g s (roundB g n D) := by
   unfold roundB
-  generalize List.range n = l
+  generalize List.range n ++ (List.range n).reverse = l
   induction l generalizing D with
   | nil => exact h
   | cons u l ih => simp only [List.foldl_cons]; exact ih _ (relaxNodeB_sound u D h)
